@@ -120,3 +120,17 @@ PROPS["C17"] = {
          "timeout": {"quick": 600, "thorough": 1800}},
     ],
 }
+QUEUE_FILES = ["internal/queue/simple.go", "internal/queue/priority.go"]
+PROPS["C15"] = {
+    "level": "exploration",
+    "units": [
+        {"name": "c15-sequential", "pkg": "internal/queue", "run": "TestVerifC15Sequential", "timeout": {"quick": 600, "thorough": 1800}},
+        {"name": "c15-interleavings", "pkg": "internal/queue", "run": "TestVerifC15Sched", "instr": QUEUE_FILES,
+         "timeout": {"quick": 1200, "thorough": 3400}},
+        {"name": "c15-porcupine", "kind": "script",
+         "cmd": ["python3", "lib/porcu.py", "C15", "c15-porcupine", "queue", "c15-history-"]},
+        {"name": "c15-race-stress", "pkg": "internal/queue", "run": "TestVerifC15Race", "race": True, "race_decides": True,
+         "race_anchors": ["internal/queue/simple.go", "internal/queue/priority.go"],
+         "timeout": {"quick": 900, "thorough": 1800}},
+    ],
+}
